@@ -1838,21 +1838,13 @@ where
         in_b = robust_insphere_sign(&points_b, opposite_point_a, diagnostics);
     }
 
-    // When robust predicates are active, in_a > 0 AND in_b > 0 simultaneously is
-    // physically impossible: det(A, v_B) = -det(B, v_A) by cofactor antisymmetry, so at
-    // most one side can be positive.  Both appearing positive is a near-degenerate
-    // numerical artefact — the adaptive tolerance in the (D+2)×(D+2) insphere matrix is
-    // insufficient to resolve the sign.  Treat it as ambiguous (skip the flip) rather than
-    // flipping, which would create an identical configuration in reverse and cycle forever.
-    let both_positive_artifact = D >= 4 && config.use_robust_on_ambiguous && in_a > 0 && in_b > 0;
-    if both_positive_artifact {
-        let key = predicate_key_from_vertices(&cell_vertices[0], opposite_b);
-        diagnostics.record_ambiguous(key);
-    }
-    let violates = !both_positive_artifact && (in_a > 0 || in_b > 0);
+    // For two cells sharing a facet with apexes on opposite sides, the orientation-normalised
+    // in-sphere signs of "B's apex w.r.t. A" and "A's apex w.r.t. B" are equal (one row swap of the
+    // same (D+2)x(D+2) matrix, compensated by the opposite orientations).  A genuine violation
+    // therefore shows *both* signs positive; it must be reported, not filtered.
+    let violates = in_a > 0 || in_b > 0;
     if std::env::var_os("DELAUNAY_REPAIR_DEBUG_PREDICATES").is_some()
         && (violates
-            || both_positive_artifact
             || fast_sign_a == 0
             || fast_sign_b == 0
             || in_a == 0
@@ -1867,7 +1859,6 @@ where
             in_a,
             in_b,
             violates,
-            both_positive_artifact,
             attempt = config.attempt,
             use_robust = config.use_robust_on_ambiguous,
             "delaunay_violation_k2_for_facet: insphere classification"
